@@ -342,6 +342,37 @@ def c02_work(item, ctx):
                 while c[0].idx not in (0x2100, 0x2120):
                     c = choose_download(rng, world)
                 cases = [(0,) + c]
+            elif rng.random() < 0.12:
+                # more bytes than the object can hold (a client does not know the capacity): the download must never be confirmed, and
+                # whatever part of it was written before the abort lies inside the object (a prefix of the payload)
+                o = world.pick(lambda o: o.writable and o.kind == "dom" and len(o.data) <= 1000)
+                cap = len(o.data)
+                payload = gen.rand_bytes(rng, cap + rng.choice([1, 2, 6, 7, 8, 14, 100, 900]))
+                mode = rng.choice(["seg", "seg", "blk"])
+                si = rng.random() < 0.4
+                opts = {"fill": rng.random() < 0.5}
+                out = run.transfer(0, make_download(rng, o, payload, mode, si, opts))
+                res.evals += 1
+                res.counters["overlong_downloads"] += 1
+                desc = "%s download of %d bytes to %04x:%02x (domain of %d bytes, size %s)" % (mode, len(payload), o.idx, o.sub, cap, "indicated" if si else "not indicated")
+                if out.kind == "ok":
+                    res.violation("c02/overlong-confirmed/%s/%s" % (mode, "size" if si else "nosize"), desc + ": confirmed, but the object cannot hold the transmitted bytes", sim=sim)
+                    return res
+                if out.kind == "deviation":
+                    res.violation("c02/response/%s/%s" % (out.deviation.rule, mode), desc + ": " + out.deviation.desc, sim=sim)
+                    return res
+                act = sim.dump()[world.order.index((o.idx, o.sub))]
+                actb = bytes.fromhex(act) if act != "-" else b""
+                if not any(actb == payload[:k] + o.data[k:] for k in range(cap + 1)):
+                    res.violation("c02/overlong-storage/%s" % mode, desc + ": after the abort the object is neither unchanged nor holds a prefix of the payload", sim=sim)
+                    return res
+                o.data = actb
+                res.nt("overlong", mode, o.idx, o.sub, len(payload), si)
+                bad = world.check_dump(sim)
+                if bad:
+                    res.violation("c02/storage/overlong", "after the refused over-long download storage differs: %r" % bad[:3], sim=sim)
+                    return res
+                continue
             else:
                 cases = [(0,) + choose_download(rng, world)]
             coros = [(s, make_download(rng, o, payload, mode, si, opts)) for (s, o, payload, mode, si, opts) in cases]
@@ -533,7 +564,7 @@ def for_property(prop):
                   "last-segment fill x lost-segment pattern, alone, interleaved with a second reference client on server 2, and under hostile traffic on server 2 (CO_SSDO_N=2); whole-dictionary "
                   "storage compared after every transfer; non-trivial = confirmed transfer with >= 2 segments, or >= 2 blocks or >= 1 retransmitted block")
         m.ASSUMPTIONS = ["the final segment of every block arrives (a client whose block end is lost times out and aborts)",
-                         "domains: payload length <= capacity; fixed-size objects: payload length == object width"]
+                         "fixed-size objects: payload length == object width; a payload longer than a domain must end in an abort (how much of it was written before is not constrained)"]
         m.work = c02_work
 
         def plan(tier, seed):
